@@ -5,6 +5,7 @@ import (
 	"errors"
 	"fmt"
 	"io"
+	"math"
 	"slices"
 	"strconv"
 	"strings"
@@ -64,8 +65,12 @@ type Number interface {
 func Hashable(o Object) bool {
 	switch o.Type() { //nolint:exhaustive // We have all the types that are hashable + default for the others.
 	// register because it's a pointer though dubious whether it's hashable for cache key.
-	case INTEGER, FLOAT, BOOLEAN, NIL, STRING, REGISTER:
+	case INTEGER, BOOLEAN, NIL, STRING, REGISTER:
 		return true
+	case FLOAT:
+		// Go map keys identify -0 with +0 (yet they print and divide differently) and NaN never matches itself.
+		f := o.(Float).Value
+		return !math.IsNaN(f) && !(f == 0 && math.Signbit(f))
 	case ARRAY:
 		if sa, ok := o.(SmallArray); ok {
 			for _, el := range sa.smallArr[:sa.len] {
